@@ -201,6 +201,7 @@ impl SwiftField for Field25AccountIdentification {
     where
         Self: Sized,
     {
+        super::swift_utils::require_ascii(input, "Field 25AccountIdentification")?;
         // Try to determine variant based on content
         // If it contains a newline or looks like it has a BIC at the end, it's Option P
         if input.contains('\n')
